@@ -46,7 +46,7 @@ const (
 	OpWriteMany  = "writemany"  // A = start pick, B = count, C = seed; full overwrites of committed pages
 	OpRead       = "read"       // A = pick
 	OpLoad       = "load"       // A = pick; Page.Load() without modifying the page (no MarkDirty)
-	OpFree       = "free"       // A = pick
+	OpFree       = "free"       // A = pick; B = 1: pick counted from the most recently allocated page
 	OpFreeMany   = "freemany"   // A = start pick, B = count, C = stride
 	OpFlushPage  = "flushpage"  // A = pick
 	OpFlushTx    = "flush"      //
